@@ -161,18 +161,23 @@ def r3_writers(facts, rep):
             continue
         for blk, t, sp, name in b.calls():
             g = t["callee"].get("generics", "") if t["callee"]["k"] == "direct" else ""
-            on_vec = (name.startswith("std::vec::Vec::<") or name.startswith("core::slice::<impl [T]>::") or "Extend" in name) and "query::Description" in g
-            if not on_vec:
-                continue
-            m = "::" + name.rsplit("::", 1)[-1]
-            if m in READERS or m.startswith("::iter"):
-                continue
-            # does it take the vector mutably?
-            if not t["args"]:
+            if not t["args"] or name in cg.local:
                 continue
             a0 = t["args"][0]
             ty0 = b.local_ty(a0["place"]["local"]) if a0["k"] in ("copy", "move") and not a0["place"]["proj"] else ""
-            if "&mut" not in ty0.replace("& mut", "&mut") and m not in ("::push", "::clear", "::pop", "::insert", "::remove", "::truncate", "::extend", "::drain", "::retain", "::swap_remove", "::append", "::sort", "::reverse", "::dedup"):
+            ty0 = ty0.replace("& mut", "&mut")
+            # by type: the receiver is a mutable reference to a vector or slice of descriptions (sort_by through DerefMut,
+            # iter_mut, last_mut ...), or a Vec / slice / Extend method instantiated at Description
+            mut_recv = ty0.startswith("&mut") and "query::Description" in ty0 and ("Vec<" in ty0 or "[" in ty0)
+            on_vec = (name.startswith("std::vec::Vec::<") or name.startswith("core::slice::<impl [T]>::") or
+                      name.startswith("std::slice::<impl [T]>::") or "Extend" in name) and "query::Description" in g
+            if not (on_vec or mut_recv):
+                continue
+            m = "::" + name.rsplit("::", 1)[-1]
+            if (m in READERS or m.startswith("::iter")) and not m.startswith("::iter_mut"):
+                continue
+            # does it take the vector mutably?
+            if not mut_recv and m not in ("::push", "::clear", "::pop", "::insert", "::remove", "::truncate", "::extend", "::drain", "::retain", "::swap_remove", "::append", "::sort", "::reverse", "::dedup"):
                 continue
             n += 1
             top = b.path.split("::{closure")[0]
